@@ -20,7 +20,8 @@ OBLIGATIONS = [
     "Pkgcore.C25.convert_relocates_partial",
     "Pkgcore.C25.convert_relocates_counterexample",
     "Pkgcore.C25.convert_passes_counterexample",
-    "Pkgcore.C25.convert_cycle_counterexample",
+    "Pkgcore.C25.convert_cycle_rejected",
+    "Pkgcore.C25.convert_terminates",
     "Pkgcore.C25.missing_dirs_exact",
     "Pkgcore.C25.convert_adds_missing_dirs_partial",
     "Pkgcore.C25.convert_order",
@@ -56,12 +57,11 @@ RULE = ("trees built on disk (nested directories, files with random contents, ha
         "entry dropped (missing directories), device nodes added, owners/modes changed, files without dev/inode, one name of a hard-link group given "
         "a different mode; written with write_set (bzip2, xz) or add_contents_to_tarfile into an uncompressed TarFile, re-read with "
         "generate_contents/convert_archive under a watchdog timer; a hand-written corpus first (chains from the seeded-change demos, nests, the "
-        "three counterexample archives of Props/C25.lean including the one on which convert_archive does not terminate); plus empty sets and "
+        "three counterexample archives of Props/C25.lean including the one convert_archive rejects as a symlink loop — it used to hang); plus empty sets and "
         "zero-member streams. non-trivial = at least 5 entries including a hard-link group or a symlinked directory with entries below it")
 
 FINDING_ORDER = "C25-symlink-below-symlink-order"
 FINDING_DEPTH = "C25-resolution-longer-than-symlinks"
-FINDING_HANG = "C25-symlink-cycle-hang"
 
 
 def gen_tree(rng, base):
@@ -296,8 +296,8 @@ def alter_symlinks(rng, kind, objs, fs, mkfile):
         if not cands:
             return None
         a, b = rng.choice(cands)
-        # symlinks recorded below the two would make convert_archive loop forever (finding C25-symlink-cycle-hang, kept to the corpus)
-        out = [o for o in objs if o.location not in (a, b) and not (o.is_sym and (o.location.startswith(a + "/") or o.location.startswith(b + "/")))]
+        # symlinks recorded below the two make convert_archive raise its symlink-loop AssertionError (it used to loop forever)
+        out = [o for o in objs if o.location not in (a, b)]
         out.append(sym(a, b, entry(a)))
         out.append(sym(b, rng.choice([a, posixpath.relpath(a, posixpath.dirname(b))]), entry(b)))
         return out
@@ -321,7 +321,7 @@ CORPUS = [
     ("finding-order-with-file", [("s", "/m", "/n/o"), ("s", "/m/k", "../t"), ("f", "/m/k/j", b"j"), ("s", "/v", "/n"), ("s", "/v/o", "/w")]),
     ("finding-ancestor-link", [("s", "/l", "/d"), ("s", "/d/m", "/"), ("f", "/l/m/l/m/x", b"x")]),
     ("cycle-two-dirs", [("s", "/a", "b"), ("s", "/b", "a"), ("f", "/a/f", b"f")]),
-    ("finding-hang", [("s", "/a", "/a/x"), ("s", "/a/x", "foo")]),
+    ("symlink-loop-rejected", [("s", "/a", "/a/x"), ("s", "/a/x", "foo")]),
 ]
 
 
@@ -386,6 +386,10 @@ def run(ctx):
             got = [canon(o, data_id) for o in watchdog(limit, lambda: read_back(path, comp))]
         except Hang:
             err = "hang"
+        except AssertionError as e:
+            if "symlink loop" not in str(e):
+                mem, got = None, None
+            err = "symlink-loop" if "symlink loop" in str(e) else f"AssertionError: {e}"
         except Exception as e:
             mem, got, err = None, None, f"{type(e).__name__}: {e}"
         reqs.append({"cmd": "c25.write", "set": inp})
@@ -406,7 +410,7 @@ def run(ctx):
                     objs.append(fs.fsSymlink(e[1], e[2], mode=0o777, uid=0, gid=0, mtime=4.0))
                 else:
                     objs.append(mkfile(e[1], e[2]))
-            process(objs, "corpus:" + name, 100000 + ci, None, 2.0 if name == "finding-hang" else 20.0)
+            process(objs, "corpus:" + name, 100000 + ci, None, 20.0)
         ncases = ctx.n(440, 9000)
         xz_left = ctx.n(4, 80)
         for idx in range(ncases):
@@ -508,12 +512,20 @@ def run(ctx):
             for o in inp:
                 ctx.count("kind_" + o[0])
             if err == "hang":
-                # the code did not return: only the class the model also gives up on (symlink cycle in the first loop) is known
-                if mread == "raise":
-                    ctx.count("hang_on_symlink_cycle")
-                    ctx.violation(case, "convert_archive does not terminate (the loop relocating symlinks below symlinks runs forever)", finding=FINDING_HANG)
-                else:
-                    ctx.violation(case, "convert_archive did not return within the watchdog limit; the model terminates on this archive")
+                ctx.violation(case, "convert_archive did not return within the watchdog limit (every loop of it is bounded: it must return or raise)")
+                continue
+            if err == "symlink-loop":
+                # malformed archive (symlinks recorded below a symlink cycle): the code must reject it exactly when the model does
+                ctx.count("symlink_loop_rejected")
+                if mwrite != mem:
+                    ctx.mismatch(case, f"members in the archive {str(mem)[:300]} differ from the model's {str(mwrite)[:300]}")
+                if mread != "symlink-loop":
+                    ctx.mismatch(case, "convert_archive raised its symlink-loop AssertionError, the model resolves the archive")
+                try:
+                    merged_locations(inp)
+                    ctx.violation(case, "convert_archive rejects as a symlink loop an archive that a live merge resolves")
+                except SymlinkLoop:
+                    pass
                 continue
             if err is not None:
                 ctx.violation(case, f"writing/reading the tarball raised {err}")
@@ -524,8 +536,8 @@ def run(ctx):
             def norm_dirs(objs, known):
                 return [(o[:5] + [""] if o[0] == "dir" and o[1] not in known else o) for o in objs]
             member_dirs = {posixpath.normpath("/" + m[1].strip("/")) for m in (mem or []) if m[0] == "dir"}
-            if mread == "raise":
-                ctx.mismatch(case, "the model raises (or runs out of fuel) on the archive, the code read it")
+            if mread in ("raise", "symlink-loop"):
+                ctx.mismatch(case, f"the model raises ({mread}) on the archive, the code read it")
                 continue
             got_n = renumber(norm_dirs(got, member_dirs))
             model_n = renumber(norm_dirs(mread["ok"], member_dirs))
@@ -644,7 +656,8 @@ LEVEL_TEXT = ("Kernel-checked Lean 4 theorems about a model of fs/tar.py over me
               "every archive (convert_order); convert_plain (nothing below a symlink ⇒ only reordering); normalised absolute locations satisfy the "
               "path hypotheses PathOK and LocNorm of all these theorems (pathok_normalised). Outside the guard the full statement is false "
               "of the code: convert_relocates_counterexample (order dependence with symlinks recorded below symlinks), convert_passes_counterexample "
-              "(len(syms)+1 passes too few with a symlink to an ancestor), convert_cycle_counterexample (non-termination) — three open findings. The "
+              "(len(syms)+1 passes too few with a symlink to an ancestor) — two open findings; symlinks recorded below a symlink cycle made the code "
+              "loop forever, since the fix every loop is bounded and the archive is rejected (convert_terminates, convert_cycle_rejected). The "
               "hypotheses are evaluated by the Lean driver on every sampled set (relocatable_of_check) and the theorems' conclusions are then checked "
               "on the real convert_archive result; the tar byte format and compression are covered by the differential run (members re-read with the "
               "stdlib tarfile; results compared with the executable model and with an independent live-merge oracle).")
